@@ -15,6 +15,7 @@ import ForML.Lemmas.C01Sem
 import ForML.Lemmas.C01Compile
 import ForML.Lemmas.C01Rerun
 import ForML.Lemmas.C01Traversal
+import ForML.Lemmas.C01Construct
 
 namespace ForML.Flow
 open Segment
@@ -161,6 +162,13 @@ theorem C01_dataflow_traversal (g : Segment) (A : Option Assets) (rank : Uid →
   obtain ⟨t, hct, hp⟩ := C01_dataflow g A rank g.visitOrder hwf hA (visitOrder_perm hwf hc)
   exact ⟨g.visitOrder, t, each_eq g, hct, hp⟩
 
+/-- **`flow.Segment(head, tail)` accepts every well-formed connected segment**: the head is simple (it cannot be trained),
+the tail search of `Traversal.tail(expected)` — no global `seen` set, `Cyclic` when a subscriber is on the current path,
+`any` stopping at the first hit — neither raises nor misses the tail, the tail is simple. So the segments the theorems
+quantify over are segments the constructor lets through. -/
+theorem C01_segment_accepted (g : Segment) (rank : Uid → Nat) (hwf : g.wf rank = true) (hc : g.connected = true) :
+    g.construct = .ok () := construct_ok hwf hc
+
 /-- `wf` alone does not make the *listed* workers the members: the statement without `connected` … -/
 def C01_traversal_listed_full : Prop :=
   ∀ (g : Segment) (rank : Uid → Nat), g.wf rank = true → g.visitOrder.Perm g.uids
@@ -190,6 +198,8 @@ def cyclicDemo : Segment :=
 
 example : cyclicDemo.closed = true := by decide
 example : cyclicDemo.each = .ok [0, 1, 2, 5, 4] := by rfl
+/-- … while the constructor, which meets the cycle before the tail, raises `Cyclic` -/
+example : cyclicDemo.construct = .error .cyclic := by rfl
 
 /-- the visit order is irrelevant: two traversals yield the same symbols -/
 theorem C01_order_irrelevant (g : Segment) (A : Option Assets) (rank : Uid → Nat) (o₁ o₂ : List Uid) (t₁ t₂ : Table)
@@ -315,6 +325,7 @@ def demoAssets : Option Assets := some ⟨[2], [.stored 0]⟩
 example : demo.wf demoRank = true := by decide +kernel
 example : demo.assetsOK demoAssets = true := by decide +kernel
 example : demo.connected = true := by decide +kernel
+example : demo.construct = .ok () := by rfl
 example : demo.each = .ok [0, 1, 2, 5, 7, 4, 3, 6] := by rfl
 /-- the theorem instantiated: the DESIGN shape compiles and preserves its dataflow -/
 example : ∃ o t, demo.each = .ok o ∧ compile demo demoAssets o = .ok t ∧ Preserves demo demoAssets t :=
